@@ -406,7 +406,37 @@ def rule_config_only_state(ctx):
     ctx.ok("crate nucleo_matcher", "no mutable statics, no interior mutability in any type")
 
 
+def rule_owning_pointers(ctx):
+    """A type that owns a raw allocation (raw pointer / NonNull field + a hand-written Drop that frees it) must not
+    be duplicable bit-for-bit: a derived Clone/Copy hands two owners the same pointer (use after free on the
+    survivor, double free at the end).  Both crates."""
+    facts = ctx.facts
+    n = 0
+    for cname in ("nucleo_matcher", "nucleo"):
+        c = facts.crate(cname)
+        impls = c["impls"]
+        for a in c["adts"]:
+            raw = [(f["name"], f["ty"]) for v in a["variants"] for f in v["fields"] if "NonNull<" in f["ty"] or f["ty"].startswith("*mut") or f["ty"].startswith("*const")]
+            if not raw:
+                continue
+            base = a["path"]
+            mine = [i for i in impls if i["self_ty"].split("<")[0] == base]
+            drops = [i for i in mine if i.get("trait") == "std::ops::Drop" and not i.get("derived")]
+            if not drops:
+                continue   # does not own what it points to
+            n += 1
+            dup = [i for i in mine if i.get("trait") in ("std::clone::Clone", "std::marker::Copy") and i.get("derived")]
+            if dup:
+                ctx.violation("%s|owning-pointer|%s" % (base, dup[0]["trait"].rsplit("::", 1)[-1]), "%s:%d" % (dup[0]["loc"]["file"], dup[0]["loc"]["line"]),
+                              "%s owns the allocation behind `%s: %s` (it frees it in Drop) but derives %s: every clone shares the pointer — matching on one after the other was dropped reads freed memory, and the second drop frees it again"
+                              % (base, raw[0][0], raw[0][1], dup[0]["trait"].rsplit("::", 1)[-1]))
+            else:
+                ctx.ok("%s:%d" % (a["loc"]["file"], a["loc"]["line"]), "%s owns a raw allocation and is not bitwise-duplicable (no derived Clone/Copy)" % base)
+    ctx.floor("types owning a raw allocation", n, 1)
+
+
 def rules(ctx):
+    ctx.run_rule("C10.owning-pointers", rule_owning_pointers)
     ctx.run_rule("C10.view-extents", rule_view_extents)
     ctx.run_rule("C10.slab-guards", rule_slab_guards)
     ctx.run_rule("C10.u16-overflow", rule_u16_overflow)
